@@ -340,6 +340,12 @@ def _ts_methods():
     C("TreeSequence.decapitate", "ts", lambda ts, a: ts.decapitate(a[0], flags=a[1], population=a[2]), [TIME, INTANY, idslot("population|NULL", lambda o: o.ts.num_populations, allow_null=True)])
     C("TableCollection.delete_older", "tables", lambda tc, a: tc.delete_older(a[0]), [TIME])
     C("TreeSequence.extend_haplotypes", "ts", lambda ts, a: ts.extend_haplotypes(max_iter=a[0]), [INTANY])
+    C("TreeSequence.extend_haplotypes/mutation-times", "ts", lambda ts, a: _with_mutation_times(ts, a[0]).extend_haplotypes(),
+      [Slot(lambda o: "all-known", lambda o: [(v, None) for v in ["all-known", "all-unknown", "first-site-known", "first-site-unknown",
+                                                                  "last-site-unknown", "alternate"]], "mutation-time-pattern")])
+    C("TreeSequence.impute/stats-with-mixed-times", "ts", lambda ts, a: (lambda t2: (t2.impute_unknown_mutations_time(), t2.simplify(),
+                                                                                    t2.split_edges(0.75), t2.decapitate(0.75)))(_with_mutation_times(ts, a[0])),
+      [Slot(lambda o: "all-known", lambda o: [(v, None) for v in ["all-unknown", "first-site-known", "first-site-unknown", "alternate"]], "mutation-time-pattern")])
     one_way = ["diversity", "segregating_sites", "Tajimas_D", "Y1", "allele_frequency_spectrum"]
     for s in one_way:
         C(f"TreeSequence.{s}", "ts", (lambda s: lambda ts, a: getattr(ts, s)(sample_sets=a[0], windows=a[1], mode=a[2]))(s), [SAMPLE_SETS, WINDOWS, MODE])
@@ -402,6 +408,22 @@ def _ts_methods():
     C("TreeSequence.load_tables", "tables", lambda tc, a: tskit.TreeSequence.load_tables(tc, build_indexes=a[0]), [BOOLANY])
     C("tskit.load_text/junk", "ts", lambda ts, a: _load_text_junk(a[0]),
       [Slot(lambda o: "is_sample\ttime\n1\t0\n", lambda o: [(v, None) for v in ["", "x", "is_sample\ttime\n1\n", "is_sample\ttime\n1\tnan\n", "time\tis_sample\n0\t1\n", "is_sample\ttime\tpopulation\n1\t0\t99\n", "is_sample\ttime\n" + "1\t0\n" * 50]], "nodes-text")])
+
+
+def _with_mutation_times(ts, pattern):
+    """The same tree sequence with known (= node time) / unknown mutation times per SITE according to `pattern`
+    (mixing known and unknown across sites is valid; within a site it is not)."""
+    tc = ts.dump_tables()
+    mu = tc.mutations
+    node_t = tc.nodes.time[mu.node] if mu.num_rows else np.zeros(0)
+    nsite = tc.sites.num_rows
+    known_site = {"all-known": lambda j: True, "all-unknown": lambda j: False, "first-site-known": lambda j: j == min(mu.site, default=0),
+                  "first-site-unknown": lambda j: j != min(mu.site, default=0), "last-site-unknown": lambda j: j != max(mu.site, default=0),
+                  "alternate": lambda j: j % 2 == 0}[pattern]
+    t = np.array([node_t[k] if known_site(int(mu.site[k])) else tskit.UNKNOWN_TIME for k in range(mu.num_rows)], dtype=np.float64)
+    mu.time = t
+    tc.migrations.clear()
+    return tc.tree_sequence()
 
 
 def _rect(ts):
